@@ -2210,6 +2210,14 @@ package spec
 //@   ensures  [C15,C05] unknown-keyword-member @@ result2 != nil && oCnt(jv(result2), token) > 0 && !isExtKey(token) && !schemaKey(token) && token != "$ref" && token != "$schema" ==> extMember(result0, result1, jv(result2), token)
 // (the keyword-member clause, proved for SchemaOrBool, does not discharge here within the limit and is not claimed)
 
+// typed side only: that the encoding of the tuple form is the array of its elements' encodings is the (assumed) model of
+// encoding/json on slices, whose elements the JSON model does not name
+//@ func verifLemmaSchemaOrArrayLookup
+//@   property C15, C05
+//@   requires len(s.Schemas) >= 0 && (s.Schemas == nil ==> len(s.Schemas) == 0)
+//@   ensures  [C15,C05] tuple-element @@ s.Schema == nil && atoiOK(token) && 0 <= atoi(token) && atoi(token) < len(s.Schemas) ==> result1 == nil && holds(result0, "Schema") && asValue(result0, "Schema") == s.Schemas[atoi(token)]
+//@   ensures  [C15,C05] tuple-out-of-range @@ s.Schema == nil && atoiOK(token) && (atoi(token) < 0 || atoi(token) >= len(s.Schemas)) ==> result1 != nil
+
 // ---- the root object, and the two plain kinds without codecs of their own
 //@ func verifLemmaSwaggerRoundTrip
 //@   property C01, C19, C06
